@@ -1178,7 +1178,10 @@ def adjust_rules(chk, pid):
         if pid in ("C01", "C08"):
             # callers (SecurityBase.transact) rely on adjust to mark the tree stale: on every exit, under `update`
             root = fld(SELF, "root")
-            sv = sym.restrict(final_value(st, root, R.STALE), sym.sat(tuple(g0) + ((canon(update), True),)))
+            gu = sym.sat(tuple(g0) + ((canon(update), True),))
+            if sym.inconsistent(gu):
+                continue  # an exit taken only when the caller defers the update
+            sv = sym.restrict(final_value(st, root, R.STALE), gu)
             ok = all(canon(leaf) == canon(sym.TRUE) for _, leaf in sym.cases(sv))
             chk.ob("C01.R6", ok, CORE, host, "stale-after-mutation", "adjust marks the tree stale on every path (callers such as transact rely on it), unless the caller defers the update",
                    where=fi.where, expected="root.%s = True under `update` on every exit" % R.STALE, found=short(sv), sample={"stale": short(sv), "exit": sym.fmt_guard(st.guard)})
